@@ -101,12 +101,18 @@ func TestC22_FeesAndRewardsSplit(t *testing.T) {
 			"share_ratio":                    rapid.SampledFrom([]string{"0", "0.16", "0.5", "0.333", "1"}).Draw(t, "share_ratio"),
 			"reward_rate":                    rapid.SampledFrom([]string{"1", "0.5", "0.123", "0"}).Draw(t, "reward_rate"),
 			"block_reward":                   rapid.SampledFrom([]string{"0.068", "0", "0.0000000007", "1.5"}).Draw(t, "block_reward"),
-			"num_sharders_rewarded":          rapid.SampledFrom([]string{"1", "2", "5"}).Draw(t, "num_sharders_rewarded"),
+			"num_sharders_rewarded":          rapid.SampledFrom([]string{"1", "2", "5", "0"}).Draw(t, "num_sharders_rewarded"),
 			"num_miner_delegates_rewarded":   rapid.SampledFrom([]string{"10", "3", "1"}).Draw(t, "nmdr"),
 			"num_sharder_delegates_rewarded": rapid.SampledFrom([]string{"5", "2", "1"}).Draw(t, "nsdr"),
 		}
 		if o, err := h.Do(h.Call(owner, sim.MinerSC, "update_settings", map[string]interface{}{"fields": fields}, 0, 0)); err != nil || o.Rejected || o.Failed {
-			t.Fatalf("VERIF-HARNESS-ERROR settings %v: %+v %v", fields, o, err)
+			if err == nil && o.Failed && fields["num_sharders_rewarded"] == "0" {
+				// no sharder to divide the sharders' part among: the contract refuses the configuration and the
+				// shipped settings stay in force (an accepted 0 makes the next payFees divide by zero)
+				st.Class("settings/zero-rewarded-sharders-refused")
+			} else {
+				t.Fatalf("VERIF-HARNESS-ERROR settings %v: %+v %v", fields, o, err)
+			}
 		}
 		// stakes
 		nodes := append(append([]*simminer.Node{}, w.Miners...), w.Sharders...)
